@@ -293,6 +293,17 @@ func (t *Task) runWithLocking(queuedAs, scheduledAs *list.Element) {
 		return
 	}
 
+	// The max delay of a queued task has expired while the task is still
+	// executing: it was queued again during its run. That submission stays in
+	// its queue (it is started when the run has ended) and the schedule
+	// handler looks at it again one max delay later.
+	if t.executing && scheduledAs != nil && t.maxDelay != 0 {
+		t.executeAt = time.Now().Add(t.maxDelay)
+		t.addToSchedule(true)
+		t.lock.Unlock()
+		return
+	}
+
 	// we will not attempt execution, remove from queues
 	t.removeFromQueues()
 
